@@ -1,7 +1,6 @@
 SPECIFICATION Spec
 CONSTANTS
-  Shapes <- ShapesN
-  Tilings <- TilingsN
+  Pairs <- PairsN
   MaxT = 2
   Variant = "L_short"
   Dense = TRUE
